@@ -53,6 +53,14 @@ func init() {
 				Name: "nocopy-views",
 				Rule: "two-field types: 9x9 variants (plain/nocopy x value/pointer x plain/named Go type) x 2 id orders x 3 nestings x 8x8 value lengths x 2 wire orders; three-field types: 9^3 variants x 3 nestings x 8 length diagonals x 6 wire orders; distinct by (type, message)",
 				Body: func(c *explore.C) { c14Body(c, tier) },
+			}, {
+				Name: "nocopy-nested",
+				Rule: "9 container forms holding the struct with nocopy fields (map value / map key / list element, by pointer and by value, two levels) next to plain string and binary keys, values, elements and later fields x 9x9 field variants x optional third field x 2 wire orders x 3 lengths x decode once / twice into the same object; every string and byte slice of the decoded object is located: exactly the nocopy fields lie in the input",
+				Body: func(c *explore.C) { c14Nested(c, tier) },
+			}, {
+				Name: "nocopy-defaults",
+				Rule: "a static type with four nocopy fields and one plain field, all with declared defaults: each field independently carries {its default, a prefix of it, the default plus one byte, empty, another value, nothing} (6^5) x 4 positions (top level, pointer field, list element, by-value field); exact view addresses, defaults of absent fields, write-through",
+				Body: func(c *explore.C) { c14Dflt(c, tier) },
 			}}
 		},
 	})
@@ -306,6 +314,11 @@ func mutateViews(s, core *ref.Struct, v *ref.Val, f func([]byte)) *ref.Val {
 		case ref.KList, ref.KSet:
 			for _, e := range x.L {
 				rec(t.Elem, e)
+			}
+		case ref.KMap:
+			for _, e := range x.M {
+				rec(t.Key, e[0])
+				rec(t.Elem, e[1])
 			}
 		}
 	}
